@@ -575,6 +575,17 @@ let handle (r : reader) : unit =
         let l = next_ranges r in
         { e_st = s0; e_id = id; e_moc = (d, l) }) in
       out_s "OK"; out_hex (file_bytes n128 ents)
+  | "MSETA" ->
+      (* MSETA n128 k (id status depth ranges)* id status depth ranges step -> the file after the step-th write
+         (1 data, 2 index slot, 3 metadata word) of the append of that entry to the file of that state *)
+      let n128 = next_n r in
+      let ent r = let id = next_n r in let s0 = status_of (next r) in let d = next_n r in let l = next_ranges r in
+                  { e_st = s0; e_id = id; e_moc = (d, l) } in
+      let ents = next_list r ent in
+      let e = ent r in
+      let step = next_int r in
+      let files = append_steps n128 ents e (file_bytes n128 ents) in
+      out_s "OK"; out_hex (List.nth files (step - 1))
   | "HIST" -> handle_hist r
   | "MSET" -> handle_mset r
   | "TEXTV" ->
